@@ -55,7 +55,7 @@ def cases(tier, seed):
         r = random.Random("C12/%d/%s/csr/%d" % (seed, tier, k))
         c = dict(engine=["reader", "writer"][k % 2], port="native", csr=True, fifo_depth=[1, 2, 4, 16, 3, 12][(k // 2) % 6], buffered=bool((k // 8) % 2),
                  profile=PROFILES[(k // 2) % 4], dw=r.choice([32, 64]), length_words=r.choice([1, 2, 7, 16, 33, 64]),
-                 base_words=r.randrange(0, 1 << 13), loop=bool((k // 4) % 2), cmd_ready_prob=r.choice([1.0, 0.7, 0.3]),
+                 base_words=r.choice([r.randrange(0, 1 << 13), (1 << 13) + r.randrange(0, 1 << 13)]), loop=bool((k // 4) % 2), cmd_ready_prob=r.choice([1.0, 0.7, 0.3]),
                  extra_lat=r.choice([(0, 0), (0, 10), (0, 40)]), long_stall=r.choice([0, 0, 0.01]), src_valid=r.choice([1.0, 0.8, 0.3]),
                  nwords=0, seed="C12/%d/csr/%d" % (seed, k))
         if c["buffered"] and c["fifo_depth"] < 2:
@@ -196,7 +196,7 @@ def run_csr_case(c):
     from ..streams import StreamSource, StreamSink
     from ..core import run_sim
     r = random.Random(c["seed"])
-    aw, dw = 14, c["dw"]
+    aw, dw = r.choice([14, 14, 27]), c["dw"]
     nb = dw // 8
     store = Store(nb)
     port = LiteDRAMNativePort("both", aw, dw)
@@ -353,7 +353,7 @@ def run_case(c):
     from ..streams import StreamSource, StreamSink
     from ..core import run_sim
     r = random.Random(c["seed"])
-    aw, dw = 14, c["dw"]
+    aw, dw = r.choice([14, 14, 27]), c["dw"]
     nb = dw // 8
     store = Store(nb)
     violations = []
@@ -363,6 +363,7 @@ def run_case(c):
         backend = CoreBackend(1, databits=dw, refresh=c["refresh"], cmd_buffer_depth=c["cmd_buffer_depth"])
         port = backend.ports[0]
         store = backend.store
+        aw = 14                # addresses inside the real device
     elif c["port"] == "native":
         port = LiteDRAMNativePort("both", aw, dw)
     else:
